@@ -40,9 +40,7 @@ LinkRows(lo, hi, nb, blocks) ==
              left == LinkRows(lo, mid, nb, blocks)
          IN IF Cardinality(left) >= 0 THEN LinkRows(mid + 1, hi, nb, left) ELSE {}
 
-Link(i, n, nb, blocks) == LinkRows(i, n, nb, blocks)
-
-Groups(n, nb) == Link(1, n, nb, {})
+Groups(n, nb) == LinkRows(1, n, nb, {})
 
 \* ---- the property's wording ---------------------------------------------
 \* "every input source is assigned to exactly one group"
